@@ -282,7 +282,8 @@ theorem opNewEntity_rel_total (run : ProbeRunner) (p : Path) {w : World} {fl : L
     lacks, relations as for `NewEntity`; any path, no observers -/
 theorem opAdd_rel_total (run : ProbeRunner) (p : Path) {w : World} {fl : List Nat} (h : TInv w fl)
     (hl : w.isLocked = false) (hno : ∀ (evt : Nat), w.obs.hasObservers evt = false) {e : Ent}
-    (h2 : 2 ≤ e.id) (hnf : e.id ∉ fl) (ha : w.alive e = true) {ids : List Comp}
+    (h2 : 2 ≤ e.id) (hnf : e.id ∉ fl) (ha : w.alive e = true)
+    (hsl : e.id < w.pool.ents.length) {ids : List Comp}
     {vals : List (Comp × Val)} {rels : List RelID}
     (hne : ids ≠ []) (hnd : ids.Nodup) (hreg : ∀ (c : Comp), c ∈ ids → c < w.kinds.length)
     (hnew : ∀ (c : Comp), c ∈ ids → (w.maskOf e).get c = false)
@@ -299,7 +300,7 @@ theorem opAdd_rel_total (run : ProbeRunner) (p : Path) {w : World} {fl : List Na
     rw [Mask.get_ofList]
     have : r.comp < 256 := Nat.lt_of_lt_of_le (hreg r.comp (hin r hr)) hk256
     simp [this, hin r hr]
-  obtain ⟨oldT, row, he, htm, _⟩ := h.link.live_entry h2 hnf ha
+  obtain ⟨oldT, row, he, htm, _⟩ := h.link.live_entry h2 hnf ha hsl
   have hix := index_of_get he
   obtain ⟨hT, _, _⟩ := h.link.idx.indexed he htm
   have hlt := lt_of_get hT
@@ -328,7 +329,8 @@ theorem opAdd_rel_total (run : ProbeRunner) (p : Path) {w : World} {fl : List Na
     named) -/
 theorem opSetRelations_total (run : ProbeRunner) (p : Path) {w : World} {fl : List Nat}
     (h : TInv w fl) (hl : w.isLocked = false) (hno : ∀ (evt : Nat), w.obs.hasObservers evt = false)
-    {e : Ent} (h2 : 2 ≤ e.id) (hnf : e.id ∉ fl) (ha : w.alive e = true) {rels : List RelID}
+    {e : Ent} (h2 : 2 ≤ e.id) (hnf : e.id ∉ fl) (ha : w.alive e = true)
+    (hsl : e.id < w.pool.ents.length) {rels : List RelID}
     (hne : rels.isEmpty = false) (hnd : (rels.map (·.comp)).Nodup)
     (hhas : ∀ (r : RelID), r ∈ rels → (targetOf w e.id r.comp).isSome = true)
     (hval : ∀ (r : RelID), r ∈ rels → r.target.isZero = true ∨ w.alive r.target = true)
@@ -341,7 +343,7 @@ theorem opSetRelations_total (run : ProbeRunner) (p : Path) {w : World} {fl : Li
     rw [Mask.get_ofList]
     simp only [(hreg r hr).2, decide_true, Bool.true_and, decide_eq_true_eq]
     exact List.mem_map.mpr ⟨r, hr, rfl⟩
-  obtain ⟨w', hok⟩ := setRelationsCore_total run h hl hno h2 hnf ha hne hnd hhas hval
+  obtain ⟨w', hok⟩ := setRelationsCore_total run h hl hno h2 hnf ha hsl hne hnd hhas hval
   exact ⟨w', by simp only [opSetRelations, bind, M.bind, hpre, hok]⟩
 
 /-! ## the access path does not matter for a valid call -/
@@ -379,7 +381,8 @@ theorem opNewEntity_rel_path_indep (run : ProbeRunner) (p q : Path) {w : World} 
 /-- a valid `Add(e, ids…, rels…)` gives the same world through every access path -/
 theorem opAdd_rel_path_indep (run : ProbeRunner) (p q : Path) {w : World} {fl : List Nat}
     (h : TInv w fl) (hl : w.isLocked = false) (hno : ∀ (evt : Nat), w.obs.hasObservers evt = false)
-    {e : Ent} (h2 : 2 ≤ e.id) (hnf : e.id ∉ fl) (ha : w.alive e = true) {ids : List Comp}
+    {e : Ent} (h2 : 2 ≤ e.id) (hnf : e.id ∉ fl) (ha : w.alive e = true)
+    (hsl : e.id < w.pool.ents.length) {ids : List Comp}
     {vals : List (Comp × Val)} {rels : List RelID}
     (hne : ids ≠ []) (hnd : ids.Nodup) (hreg : ∀ (c : Comp), c ∈ ids → c < w.kinds.length)
     (hnew : ∀ (c : Comp), c ∈ ids → (w.maskOf e).get c = false)
@@ -397,7 +400,7 @@ theorem opAdd_rel_path_indep (run : ProbeRunner) (p q : Path) {w : World} {fl : 
     rw [Mask.get_ofList]
     have : r.comp < 256 := Nat.lt_of_lt_of_le (hreg r.comp (hin r hr)) hk256
     simp [this, hin r hr]
-  obtain ⟨oldT, row, he, htm, _⟩ := h.link.live_entry h2 hnf ha
+  obtain ⟨oldT, row, he, htm, _⟩ := h.link.live_entry h2 hnf ha hsl
   have hix := index_of_get he
   obtain ⟨hT, _, _⟩ := h.link.idx.indexed he htm
   have hlt := lt_of_get hT
